@@ -111,17 +111,15 @@ fn fresh(original: &str) -> BufState {
     BufState { original: original.to_string(), history: vec![], buf, chars, deleted_at: vec![false; n + 1] }
 }
 
-/// apply one batch to the real buffer and to the reference bookkeeping
-fn apply(s: &BufState, batch: &[Edit]) -> Option<BufState> {
-    let cur = s.buf.current().to_string();
+/// record one batch of replacements in a buffer and commit it
+fn apply_to_buf(buf: &mut InputBuffer, batch: &[Edit], depth: usize) -> bool {
+    let cur = buf.current().to_string();
     let offs: Vec<usize> = cur.char_indices().map(|(b, _)| b).chain(std::iter::once(cur.len())).collect();
-    let mut n = s.clone();
     let edits: Vec<(std::ops::Range<usize>, String)> =
         batch.iter().map(|e| (offs[e.from]..offs[e.to], e.with.clone())).collect();
     // the three ways of recording a replacement (owned string, borrowed string, single character)
     // must be equivalent: which one is used varies with position, batch number and replacement
-    let depth = s.history.len();
-    let r = n.buf.with_editor(move |_, mut ed| {
+    let r = buf.with_editor(move |_, mut ed| {
         for (r, w) in edits {
             let special = (r.start + depth + w.chars().count()) % 2 == 0;
             let mut cs = w.chars();
@@ -138,7 +136,33 @@ fn apply(s: &BufState, batch: &[Edit]) -> Option<BufState> {
         }
         Ok(ed)
     });
-    if r.is_err() {
+    r.is_ok()
+}
+
+/// the state's history replayed on a buffer that served another text before (two batches that shrink and expand it,
+/// then `build()`), as the buffers inside a tokenizer do: current text and offset map at every character boundary
+fn replay_on_used_buffer(s: &BufState, grammar: &sudachi::dic::grammar::Grammar) -> Option<InputBuffer> {
+    let mut buf = InputBuffer::new();
+    buf.reset().push_str("Ａ㍿x東京ーー");
+    buf.start_build().ok()?;
+    let _ = apply_to_buf(&mut buf, &[Edit { from: 0, to: 1, with: "a".into() }, Edit { from: 1, to: 2, with: "株式会社".into() }], 0);
+    let _ = apply_to_buf(&mut buf, &[Edit { from: 7, to: 9, with: "ー".into() }], 1);
+    let _ = buf.build(grammar);
+    buf.reset().push_str(&s.original);
+    buf.start_build().ok()?;
+    for (d, b) in s.history.iter().enumerate() {
+        if !apply_to_buf(&mut buf, b, d) {
+            return None;
+        }
+    }
+    Some(buf)
+}
+
+/// apply one batch to the real buffer and to the reference bookkeeping
+fn apply(s: &BufState, batch: &[Edit]) -> Option<BufState> {
+    let mut n = s.clone();
+    let depth = s.history.len();
+    if !apply_to_buf(&mut n.buf, batch, depth) {
         return None;
     }
     // reference
@@ -269,12 +293,55 @@ impl Space for EditSpace {
         }
     }
     fn check(&self, s: &BufState) -> Outcome {
+        let mut o = self.judge(s, "");
+        // the same history on a buffer that served another text before: the same statement applies
+        if s.original.len() <= 64 {
+            match catch(|| replay_on_used_buffer(s, self.world.dict.grammar())) {
+                Err(p) => o.fail(Failure::panic(&format!("original {:?} history {:?} replayed on a used buffer", s.original, s.history), &p)),
+                Ok(None) => o.fail(Failure::new("used-buffer-rejects", format!("original {:?} history {:?}: a buffer that was reset after another text rejects the edits a new buffer accepts", s.original, s.history))),
+                Ok(Some(buf)) => {
+                    let s2 = BufState { original: s.original.clone(), history: s.history.clone(), buf, chars: s.chars.clone(), deleted_at: s.deleted_at.clone() };
+                    let o2 = self.judge(&s2, " [on a buffer that was reset after holding another, rewritten text]");
+                    o.evaluations += o2.evaluations;
+                    o.failures.extend(o2.failures);
+                }
+            }
+        }
+        o
+    }
+    fn describe(&self, s: &BufState) -> Value {
+        json!({
+            "original": s.original,
+            "history": s.history.iter().map(|b| b.iter().map(|e| json!({"from": e.from, "to": e.to, "with": e.with})).collect::<Vec<_>>()).collect::<Vec<_>>(),
+            "current": s.buf.current(),
+        })
+    }
+    fn parse(&self, v: &Value) -> Option<BufState> {
+        let mut s = fresh(v["original"].as_str()?);
+        for b in v["history"].as_array()? {
+            let batch: Vec<Edit> = b
+                .as_array()?
+                .iter()
+                .map(|e| Edit {
+                    from: e["from"].as_u64().unwrap_or(0) as usize,
+                    to: e["to"].as_u64().unwrap_or(0) as usize,
+                    with: e["with"].as_str().unwrap_or("").to_string(),
+                })
+                .collect();
+            s = apply(&s, &batch)?;
+        }
+        Some(s)
+    }
+}
+
+impl EditSpace {
+    fn judge(&self, s: &BufState, note: &str) -> Outcome {
         let mut o = Outcome::new();
         o.evaluations = 1;
         o.nontrivial = !s.history.is_empty();
         let cur = s.buf.current().to_string();
         let orig = &s.original;
-        let ctx = format!("original {:?} history {:?} current {:?}", orig, s.history, cur);
+        let ctx = format!("original {:?} history {:?} current {:?}{}", orig, s.history, cur, note);
         if s.buf.original() != orig.as_str() {
             o.fail(Failure::new("original-changed", format!("{}: original() = {:?}", ctx, s.buf.original())));
         }
@@ -392,29 +459,6 @@ impl Space for EditSpace {
             }
         }
         o
-    }
-    fn describe(&self, s: &BufState) -> Value {
-        json!({
-            "original": s.original,
-            "history": s.history.iter().map(|b| b.iter().map(|e| json!({"from": e.from, "to": e.to, "with": e.with})).collect::<Vec<_>>()).collect::<Vec<_>>(),
-            "current": s.buf.current(),
-        })
-    }
-    fn parse(&self, v: &Value) -> Option<BufState> {
-        let mut s = fresh(v["original"].as_str()?);
-        for b in v["history"].as_array()? {
-            let batch: Vec<Edit> = b
-                .as_array()?
-                .iter()
-                .map(|e| Edit {
-                    from: e["from"].as_u64().unwrap_or(0) as usize,
-                    to: e["to"].as_u64().unwrap_or(0) as usize,
-                    with: e["with"].as_str().unwrap_or("").to_string(),
-                })
-                .collect();
-            s = apply(&s, &batch)?;
-        }
-        Some(s)
     }
 }
 
